@@ -39,7 +39,19 @@ type fill struct {
 	n    int
 }
 
+// startCache memoises the model side of a start state (the model is a deterministic function of
+// the fill steps): the expected result of every pre-fill Add and the resulting set. The real
+// object is rebuilt by real calls for every replay; only the model is copied.
+type startCache struct {
+	once   sync.Once
+	expect []bool
+	model  map[uint32]struct{}
+	cnt    map[uint32]int
+	sorted []uint32
+}
+
 type startDef struct {
+	cache  *startCache
 	desc   string
 	fills  []fill
 	vals   []uint32 // alphabet of Add / Remove arguments, simplest first
@@ -71,10 +83,11 @@ type inst struct {
 
 	pre      []uint32 // Remove calls made while the bucket index was still the zero value
 	hist     []space.Op
-	dead     bool   // a transition oracle failed: impl and model have diverged, do not explore further
-	last     string // class of the last transition, used in Len signatures
-	sorted   []uint32
+	dead     bool     // a transition oracle failed: impl and model have diverged, do not explore further
+	last     string   // class of the last transition, used in Len signatures
+	sorted   []uint32 // the model in ascending order: kept up to date by single steps, rebuilt by a full sort after bulk steps
 	sortedOK bool
+	bulk     bool
 }
 
 // ---------------------------------------------------------------- reporting
@@ -83,7 +96,7 @@ var (
 	reported sync.Map // signature + path: one report per (signature, state path), replays of a prefix do not count twice
 	sigSeen  sync.Map
 
-	cConversions, cBucketsRemoved, cDenseStates, cMultiStates, cFirstRetries int64
+	cConversions, cBucketsRemoved, cDenseStates, cMultiStates int64
 )
 
 func hex(v uint32) string { return fmt.Sprintf("0x%08X", v) }
@@ -231,7 +244,8 @@ func (x *inst) sortedModel() []uint32 {
 // ---------------------------------------------------------------- transitions
 
 // realAdd calls Add on the real object with the tower height of a new bucket node scripted.
-func (x *inst) realAdd(v uint32) (got, ok bool) {
+// It does not catch panics (the callers do).
+func (x *inst) realAdd(v uint32) (got bool) {
 	want := x.sys.hf.f(v >> 16)
 	slot := randSlot(&x.bm)
 	if *slot == nil {
@@ -243,62 +257,77 @@ func (x *inst) realAdd(v uint32) (got, ok bool) {
 			want = 2 // a new node is never more than one level above the current top level (1)
 		}
 		for try := 0; ; try++ {
-			if !x.call("Add", func() { got = x.bm.Add(v) }) {
-				return false, false
-			}
+			got = x.bm.Add(v)
 			if *slot == nil || listLevel(&x.bm) == want {
 				break
 			}
 			if try >= 400 {
 				common.Infra("cannot obtain first tower height %d from the library's own source after %d attempts", want, try)
 			}
-			atomic.AddInt64(&cFirstRetries, 1)
 			x.bm = setz.RoaringBitmap{}
 			for _, p := range x.pre {
-				if !x.call("Remove", func() { x.bm.Remove(p) }) {
-					return false, false
-				}
+				x.bm.Remove(p)
 			}
 		}
 		if *slot != nil {
 			*slot = x.rnd
 		}
-		return got, true
+		return got
 	}
 	if *slot != x.rnd {
 		*slot = x.rnd
 	}
 	x.src.next = kFor(want)
-	ok = x.call("Add", func() { got = x.bm.Add(v) })
-	return got, ok
+	return x.bm.Add(v)
 }
 
-func (x *inst) add(v uint32) bool {
+// addRaw is one Add transition with its oracle; panics propagate to the caller's Catch.
+func (x *inst) addRaw(v uint32) bool {
 	h := v >> 16
 	_, present := x.model[v]
+	n := x.cnt[h]
 	class := x.bucketClass(h)
-	if !present && !x.dense[h] && x.cnt[h] == threshold {
+	if !present && n == threshold && !x.dense[h] {
 		class = "bucket-at-threshold"
 		atomic.AddInt64(&cConversions, 1)
 	}
-	got, ok := x.realAdd(v)
-	if !ok {
-		return false
-	}
+	got := x.realAdd(v)
 	if !present {
 		x.model[v] = struct{}{}
-		x.cnt[h]++
-		if x.cnt[h] > threshold {
+		x.cnt[h] = n + 1
+		if n+1 > threshold {
 			x.dense[h] = true
 		}
-		x.sortedOK = false
+		if x.sortedOK && !x.bulk {
+			i, _ := slices.BinarySearch(x.sorted, v)
+			x.sorted = slices.Insert(x.sorted, i, v)
+		} else {
+			x.sortedOK = false
+		}
 	}
 	x.last = "after-Add-" + class
 	if got != !present {
-		x.fail("RoaringBitmap.Add|wrong-result|"+class, fmt.Sprintf("Add(%s) = %v, want %v (value %s before the call; its bucket held %d values, %s)", hex(v), got, !present, presence(present), x.cnt[h]-b2i(!present), class))
+		x.fail("RoaringBitmap.Add|wrong-result|"+class, fmt.Sprintf("Add(%s) = %v, want %v (value %s before the call; its bucket held %d values, %s)", hex(v), got, !present, presence(present), n, class))
 		return false
 	}
 	return true
+}
+
+func (x *inst) add(v uint32) (ok bool) {
+	return x.call("Add", func() { ok = x.addRaw(v) }) && ok
+}
+
+// addMany is the macro step "fill a bucket with n values of a pattern": n Add transitions, each
+// with its oracle, under one panic guard.
+func (x *inst) addMany(high uint32, p pattern, n int) (ok bool) {
+	ok = true
+	x.bulk = true
+	defer func() { x.bulk = false }()
+	return x.call("Add", func() {
+		for i := 0; i < n && ok; i++ {
+			ok = x.addRaw(high<<16 | p.low(i))
+		}
+	}) && ok
 }
 
 func (x *inst) remove(v uint32) bool {
@@ -323,7 +352,11 @@ func (x *inst) remove(v uint32) bool {
 			delete(x.cnt, h)
 			delete(x.dense, h)
 		}
-		x.sortedOK = false
+		if i, found := slices.BinarySearch(x.sorted, v); x.sortedOK && !x.bulk && found {
+			x.sorted = slices.Delete(x.sorted, i, i+1)
+		} else {
+			x.sortedOK = false
+		}
 	}
 	x.last = "after-Remove-" + class
 	if got != present {
@@ -363,7 +396,9 @@ func (x *inst) drain(high uint32, desc bool, keep int) {
 	if keep > len(ms) {
 		keep = len(ms)
 	}
-	ms = ms[:len(ms)-keep]
+	ms = slices.Clone(ms[:len(ms)-keep])
+	x.bulk = true // the sorted model is rebuilt at the milestones instead of being updated 4 k times
+	defer func() { x.bulk = false }()
 	for _, v := range ms {
 		if !x.remove(v) {
 			return
@@ -401,12 +436,7 @@ func (x *inst) Apply(op space.Op) *space.Mismatch {
 	case "Drain":
 		x.drain(uint32(op.Args[0]), op.Args[1] == 1, op.Args[2])
 	case "Refill":
-		p := patterns[op.Args[2]]
-		for i := 0; i < op.Args[1]; i++ {
-			if !x.add(uint32(op.Args[0])<<16 | p.low(i)) {
-				break
-			}
-		}
+		x.addMany(uint32(op.Args[0]), patterns[op.Args[2]], op.Args[1])
 	}
 	return nil
 }
@@ -496,6 +526,9 @@ func (x *inst) Check() *space.Mismatch {
 // path of the state and the search goes on below it.
 func (x *inst) battery(note string) {
 	want := x.sortedModel()
+	if len(want) != len(x.model) {
+		common.Infra("harness: sorted model has %d elements, the model set %d", len(want), len(x.model))
+	}
 
 	var n int
 	if !x.call("Len", func() { n = x.bm.Len() }) {
@@ -528,10 +561,19 @@ func (x *inst) battery(note string) {
 			return
 		}
 	}
-	for _, v := range want {
-		if !probe(v) {
-			return
+	miss, missed := uint32(0), false
+	if !x.call("Contains", func() {
+		for _, v := range want {
+			if !x.bm.Contains(v) {
+				miss, missed = v, true
+				return
+			}
 		}
+	}) {
+		return
+	}
+	if missed && !fn {
+		x.report("RoaringBitmap.Contains|false-negative|"+x.bucketClass(miss>>16), fmt.Sprintf("Contains(%s) = false, the value is a member%s", hex(miss), note))
 	}
 
 	// complete ascending enumeration, three ways; production is cut a little above the expected
